@@ -8,6 +8,8 @@ namespace verif
         auto        bs = static_cast<std::size_t>(x.num("bs", 256));
         if (s == "grow")
             return new ArenaSubj<src_grow, Cached>(where, src, bs);
+        if (s == "fixed")
+            return new ArenaSubj<src_fixed, Cached>(where, src, bs);
         if (s == "static")
             return new ArenaSubj<src_static, Cached>(where, src, bs);
         if (s == "virtual")
